@@ -147,7 +147,10 @@ for l in open("/verif/properties.jsonl"):
                 "(np.isclose / allclose with default rtol: near ties, near-equal values, operands near A^H, near-real or near-unit data); classical "
                 "worst-case matrices (Kahan, glued Wilkinson, spiky-versus-flat rows, singular-value clusters ten orders apart); recurrences "
                 "restarted or frozen after many steps; rare random starts; module-level scratch buffers under concurrent callers; container or "
-                "shape coincidences with the number 4" if rnd >= 15 else "") + ". Think about what a "
+                "shape coincidences with the number 4" if rnd >= 15 else "") + ("; the process environment (numpy error state / warnings as errors); "
+                "index-dtype overflow for huge logical shapes; configuration written back to a solver object by a public entry point; value-range "
+                "heuristics ('looks like 8-bit data'); pivots or entries that are tiny but not zero; finding-prone regimes such as rank-deficient or "
+                "repeated-singular-value input (the tool knows those and does not excuse anything else there)" if rnd >= 16 else "") + ". Think about what a "
                 "checker that samples inputs (including all of the above classes) and compares with independent references would STILL be least "
                 "likely to notice for this particular property, and build your change there. Explain in meta.json why you expect it to be missed.\n")
     elif rnd >= 13:
